@@ -31,6 +31,13 @@ def cases(tier: str, seed: int) -> list[dict]:
     extra = [GW.structured_world("cf2d", 5, 6, shape="skew", bounds=True, holes=[(2, 2), (0, 5)]),
              GW.structured_world("shoc_standard", 4, 5, shape="skew2", holes=[(1, 1)]),
              GW.structured_world("cf1d", 4, 6, bounds=False, nonuniform=True)]
+    # round 13: cells that OVERLAP their neighbours (stored bounds reaching a quarter cell into the next cell, as staggered or
+    # nested outputs do): a point on the rim of a lower-indexed cell lies strictly inside a higher-indexed one
+    ov = GW.structured_world("cf1d", 2, 3, bounds=True, gap=-6)
+    ov["pin_via"] = "memory"; ov["via"] = "memory"
+    ov2 = GW.structured_world("cf1d", 3, 3, bounds=True, gap=-6, descending=(True, False))
+    ov2["pin_via"] = "file"; ov2["via"] = "file"
+    extra += [ov, ov2]
     for w in worlds + extra:
         CD.add_data_vars(w, rng, rich=False)
         pts = GW.probe_points(w, rng, limit=40 if tier == "quick" else 120)
